@@ -444,6 +444,16 @@ def run(ctx, only_cases=None):
         # last-second cells: the same overlapping schedules on a code that lives 900 ms
         cases += [last_second(c) for c in parked_cases("") + parked_cases("cluster")]
         cases += [last_second(c) for c in ctx.rng.sample(ex, min(len(ex), 20000 if thorough else 200))]
+    # code-string collisions (generator.go GenerateUnique, service.go CreateConnectionCode): a separate, predicate-only mode
+    # (creation is not a thread kind of the model): four-string code space, adversarial draws
+    if only_cases is not None:
+        collide = [c for c in cases if c.get("world") == "collide"]
+        cases = [c for c in cases if c.get("world") != "collide"]
+    else:
+        collide = [case([], [], state=st, world="collide") for st in ("valid", "revoked", "activated") for _ in range(40 if thorough else 6)]
+    for c, o in zip(collide, vlib.run_harness(binary, collide) if collide else []):
+        for v in o["viol"]:
+            ctx.violation(v["kind"], "real conncode service, code-string collisions: " + v["msg"], {"case": c, "observed": o})
     outs = run_parallel(binary, cases, par=8)
     # ---- the property predicate evaluated by the harness on the real code's outputs
     nviol = {}
@@ -526,6 +536,7 @@ def run(ctx, only_cases=None):
                 "trace and final storage contents. non-trivial = at least two callers whose storage actions overlap in the executed schedule and "
                 "at least one successful activation; distinct by (callers, executed schedule, initial state, quota).",
         "samples": samples,
+        "code_string_collision_cells_predicate_only": len(collide),
         "variant_of_the_tree": {"atomic_claim": claim, "create_cleanup": cleanup, "quota_admission_marker": admit},
         "model_vs_impl_cases": len(terms), "model_vs_impl_mismatches": len(mism), "impl_property_failures": nviol,
         "input_distribution": stats, "generated_file_changed": gen_changed,
